@@ -208,7 +208,7 @@ _EXTRA2 = {
     "C01": " The parental matrix of the protocol units carries symbolic chromosome-group index vectors, so a protocol that edits the crossover "
            "probabilities at group boundaries fails the 'kernel gets the parental matrix's probabilities' obligation; the native ring uses several chromosomes. In-place operations on the marker axis of the progeny (group_vrnt, sort_vrnt, ...) are modelled as a havoc of the marker metadata and refute 'metadata carried by identity'; the ring also uses parental matrices whose markers are stored unsorted and ungrouped.",
     "C02": " The Kosambi map function has the same lemma unit as Haldane (values in [0,1/2], zero to zero, +inf to exactly one half on IEEE doubles).",
-    "C03": " The three- and four-way variance matrices (three / four square taxa axes, all structural operations inherited) are classes of the A1 proof and of the "
+    "C03": " The breeding-value matrices' overridden taxa operations are proved (the C15 unit, registered here too) to move values and labels by the same operator, an explicit label array winning over the operand's own. The three- and four-way variance matrices (three / four square taxa axes, all structural operations inherited) are classes of the A1 proof and of the "
            "native history ring; numpy.ix_ and nested takes along different axes are part of the opaque array algebra (canonical axis order).",
     "C04": " The numpy-level var_a_numpy / bulmer_numpy are also proved for an explicit tetraploid ploidy. TrueBreedingValue.estimate is executed against a model stand-in that answers gebv and gegv differently: exactly one call, gebv, on the genotypes passed in, result returned as is.",
     "C09": " Every statistic is proved again after new allele calls were written in place through the array that .mat hands out (no statistic may be served from a stale cache).",
@@ -216,8 +216,8 @@ _EXTRA2 = {
            "executed on recording stand-ins: positions are interpolated for ALL markers, the genetic-position routine gets those and the caller's window, its result is returned (through mapfn for rprob*). gdist2g is proved (<=5 markers on 1-3 chromosomes, positions symbolic) to return for every pair of row / column windows, square or rectangular, on or off the diagonal, the corresponding block of |g_i - g_j| / +inf.",
     "C13": " The kinship format is proved to be half of the coancestry the matrix holds NOW, also after reorder_taxa and after an in-place write through .mat.",
     "C15": " DenseScaledMatrix itself is under a bounded-symbolic unit: unscale(inplace=False) == mat*scale+location and leaves matrix, location and scale untouched (twice in a row), transform/untransform(copy=True) are inverse and do not write their argument, unscale(inplace=True) leaves raw values with location 0 and scale 1.",
-    "C19": " The third implementation of the distance transformation (core/util/trans.py trans_ndpt_pseudo_dist) is part of the same bounded-symbolic unit.",
-    "C14": " TruePhenotyping.phenotype is proved (bounded shapes) to report exactly the bound model's true genotypic values (gegv, not gebv) with the labels carried.",
+    "C19": " The USE of the dominance predicate by the memetic hill climber is checked natively (bounded): the leader it returns is never dominated by a solution it evaluated, with constraint values reported as signed slacks. The third implementation of the distance transformation (core/util/trans.py trans_ndpt_pseudo_dist) is part of the same bounded-symbolic unit.",
+    "C14": " TrueBreedingValue.estimate is under the C04 wiring unit here too (its result is the model's gebv of the genotypes passed in, never its phenotype argument, also when that is a breeding-value matrix of matching size). TruePhenotyping.phenotype is proved (bounded shapes) to report exactly the bound model's true genotypic values (gegv, not gebv) with the labels carried.",
     "C18": " The OPV and genotype-builder latentfn are proved (bounded shapes, all block values) to equal minus ploidy times the block-wise best value among the selected "
            "individuals for the block values the problem holds NOW: on construction, after the haplomat setter and after an in-place write. The three _calc_haplomat copies (OHV, OPV, genotype builder) are proved like haplo.haplomat, with a model stand-in whose u (miscellaneous + additive effects), u_misc and beta differ from u_a: block values are sums of ADDITIVE marker effects.",
 }
